@@ -170,6 +170,18 @@ def derive_rhs(rule: Rule, msg: str) -> tuple[str | None, str]:
     if rule.rhs is not None:
         return (rule.rhs, "table") if rule.msg and rule.msg in msg else (None, f"message is {msg!r}, table expects {rule.msg!r}")
     if not m:
+        # "..., use `for <target> in <iterable>` instead": the loop header is replaced, the body stays
+        mf = re.search(r"use `for (.+) in (.+)` instead", msg)
+        if mf:
+            try:
+                hdr = ast.parse(f"for {mf.group(1)} in {mf.group(2)}:\n    pass").body[0]
+                tree_ = ast.parse(textwrap.dedent(rule.lhs))
+                loops = [n for n in ast.walk(tree_) if isinstance(n, ast.For)]
+                if len(loops) == 1:
+                    loops[0].target, loops[0].iter = hdr.target, hdr.iter
+                    return ast.unparse(ast.fix_missing_locations(tree_)), "message (loop header)"
+            except SyntaxError:
+                return "<<invalid>>" + mf.group(0), "message"
         return None, "no `Replace A with B` in the message"
     a, b = m.group(1), m.group(2)
     pat, new = _parse_fragment(a), _parse_fragment(b)
